@@ -41,7 +41,9 @@ RULE = (
 ASSUMPTIONS = [
     "pattern counts n >= 1, validation ratios in [0,1); in reconstruct runs the training set is non-empty (round(n*ratio) < n)",
     "invariance is judged for autograd=True (the analytic-gradient path normalises every batch by its own probe overlap by design) and only when the batch size divides the number of training patterns",
-    "float32 forward model: loss / gradient invariance bound 1e-4 relative (gradients: relative L2 norm); measured noise floor <= 1e-6",
+    "float32 forward model: loss invariance bound 1e-4 relative (measured floor 2.8e-7); gradient invariance in relative L2 norm, bound 1e-3 for l1/l2 losses (floor 1.5e-6) "
+    "and 1e-2 for the Poisson loss (floor 5.3e-5: its gradient factor 1 - target/pred cancels near the solution); a wrong batch fraction gives >= 0.5, one lost pattern >= 1/n >= 2.7e-2",
+    "the invariance comparison is never made at the exact solution (object and probe both true), where the gradient is pure rounding noise",
     "determinism is judged bitwise with single-threaded torch on CPU, integer seeds passed to every model",
     "soft-constraint weights are zero where the reported loss is compared with the mean of the per-batch data losses",
 ]
@@ -57,8 +59,9 @@ EXHAUSTIVE = {"quick": False, "thorough": False}
 RATIOS = [0.0, 1e-9, 0.1, 0.25, 0.33, 0.5, 0.51, 0.75, 0.9, 0.99]
 LOSSES = ["l2_amplitude", "l1_amplitude", "l2_intensity", "l1_intensity", "poisson"]
 GPTS_RICH = [(3, 4), (4, 4), (3, 6), (4, 5), (4, 6), (5, 6), (2, 6), (3, 5), (6, 6), (1, 12), (8, 1)]
-LOSS_TOL = 1e-4
-GRAD_TOL = 1e-4
+LOSS_TOL = 1e-4  # measured floor 2.8e-7 (float32 sums)
+GRAD_TOL = 1e-3  # l1 / l2 losses: measured floor 1.5e-6
+GRAD_TOL_POISSON = 1e-2  # the Poisson gradient carries the factor (1 - target / pred), which cancels near the solution: measured floor 5.3e-5
 
 
 def plan(tier, seed):
@@ -72,7 +75,7 @@ def plan(tier, seed):
     top = 80 if tier == "quick" else 200
     for lo in range(1, top + 1, step):
         specs.append({"kind": "cover", "n_lo": lo, "n_hi": min(top, lo + step - 1)})
-    ni, nv, nd = (42, 28, 28) if tier == "quick" else (600, 300, 300)
+    ni, nv, nd = (42, 28, 28) if tier == "quick" else (900, 500, 500)
     heavy = []
     for i in range(max(ni, nv, nd)):  # expensive kinds first and interleaved: round-robin sharding then balances the workers
         if i < nv:
@@ -466,6 +469,8 @@ def _draw_scene(ctx, rng, gpts=None, slices=None, modes=None, obj_type=None, roi
     kw = {"gpts": gpts if gpts is not None else (int(rng.integers(2, 7)), int(rng.integers(2, 7))), "roi": (int(rng.integers(8, roi_max)), int(rng.integers(8, roi_max))),
           "num_slices": slices if slices is not None else int(rng.choice([1, 1, 2])), "num_modes": modes if modes is not None else int(rng.choice([1, 1, 2, 3])),
           "pad_req": (int(rng.integers(0, 5)), int(rng.integers(0, 5)))}
+    # a one-line scan has zero extent along that axis: the object canvas then consists of the padding alone
+    kw["pad_req"] = tuple(max(p, 1) if g == 1 else p for p, g in zip(kw["pad_req"], kw["gpts"]))
     if obj_type:
         kw["obj_type"] = obj_type
     sc = scenes.make_scene(rng, **kw)
@@ -633,7 +638,7 @@ def _run_invariance(spec, idx, ctx):
             gm = _mean_grads(gs)
             for key, rel in _grad_rel(gm, gF).items():
                 worst["grad"] = max(worst["grad"], rel)
-                ctx.close(rel, GRAD_TOL, "batch_gradient_mean_differs", lambda: "%s: |mean of %d per-batch %s gradients - full-batch gradient| / |full| (batch=%d, n=%d)" % (lt, len(gs), key, b, ntrain), track="%s:%s" % (lt, key), param=key, **fb)
+                ctx.close(rel, GRAD_TOL_POISSON if lt == "poisson" else GRAD_TOL, "batch_gradient_mean_differs", lambda: "%s: |mean of %d per-batch %s gradients - full-batch gradient| / |full| (batch=%d, n=%d)" % (lt, len(gs), key, b, ntrain), track="%s:%s" % (lt, key), param=key, **fb)
         # explicit chain (observe_at): same partition as the last public run, loss + raw-parameter gradients
         if not dataset and divs:
             b = divs[-1]
@@ -651,7 +656,7 @@ def _run_invariance(spec, idx, ctx):
                   "probe": [sum(x[3].to(ctx.state["torch"].complex128) for x in res) / len(res)]}
             for key, rel in _grad_rel(gm, {"object": [go], "probe": [gp]}).items():
                 worst["chain_grad"] = max(worst["chain_grad"], rel)
-                ctx.close(rel, GRAD_TOL, "batch_gradient_mean_differs", lambda: "%s explicit chain %s gradient, batch=%d n=%d" % (lt, key, b, ntrain), track="%s:%s:chain" % (lt, key), param=key, **fb)
+                ctx.close(rel, GRAD_TOL_POISSON if lt == "poisson" else GRAD_TOL, "batch_gradient_mean_differs", lambda: "%s explicit chain %s gradient, batch=%d n=%d" % (lt, key, b, ntrain), track="%s:%s:chain" % (lt, key), param=key, **fb)
     frozen = np.array_equal(obj0, pt.obj) and np.array_equal(prb0, pt.probe)
     ctx.check(frozen, "lr0_changed_state", "object/probe changed under lr=0 SGD (premise of the invariance comparison)", mode=mode)
     ctx.nontrivial(("invariance", J, ntrain, round(ratio, 3), mode, bool(cons)), nb_seen >= 2)
@@ -749,5 +754,5 @@ def summarize(all_cases, counters, extras):
         "cover_calls_checked": int(counters.get("cover_calls", 0)),
         "insitu_epochs_monitored": int(counters.get("insitu_epochs", 0)),
         "determinism_cases_where_seed_changes_history": "%d/%d" % (counters.get("determinism_cases_where_seed_changes_history", 0), counters.get("determinism_cases", 0)),
-        "tolerances": {"loss_rel": LOSS_TOL, "grad_rel_l2": GRAD_TOL, "reported_vs_mean": 1e-9, "determinism": "bitwise"},
+        "tolerances": {"loss_rel": LOSS_TOL, "grad_rel_l2": GRAD_TOL, "grad_rel_l2_poisson": GRAD_TOL_POISSON, "reported_vs_mean": 1e-9, "determinism": "bitwise"},
     }
